@@ -435,7 +435,7 @@ func callerLabel() string {
 	}
 }
 
-var kindNames = [...]string{"Lock", "TryLock", "RLock", "TryRLock"}
+var kindNames = [...]string{"Lock", "TryLock", "RLock", "TryRLock", "Atomic"}
 
 // Before implements verifsync.Hooks.
 func (x *X) Before(m any, kind verifsync.Kind) {
@@ -531,7 +531,7 @@ func (x *X) threadEnabled(t *Thread) bool {
 		return false
 	}
 	switch p.kind {
-	case kindPoint, kindChoose, int(verifsync.KindTryLock), int(verifsync.KindTryRLock):
+	case kindPoint, kindChoose, int(verifsync.KindTryLock), int(verifsync.KindTryRLock), int(verifsync.KindAtomic):
 		return true
 	}
 	ls := x.locks[p.m]
